@@ -99,6 +99,8 @@ pub struct Model {
     expired: std::collections::BTreeSet<u32>,
     pub now_ns: i128,
     pub stats: ModelStats,
+    /// set while the receiver sits bit-exactly on the position published for this address
+    pub receiver_on: Option<u32>,
 }
 
 #[derive(Debug, Default, Clone)]
@@ -117,6 +119,9 @@ fn close(a: f64, b: f64, rel: f64) -> bool {
     if a == b {
         return true;
     }
+    if !a.is_finite() || !b.is_finite() {
+        return false; // nothing is close to an infinite range
+    }
     let d = (a - b).abs();
     d <= rel * a.abs().max(b.abs()).max(1e-300) || d <= 1e-12
 }
@@ -127,7 +132,7 @@ fn pos_close(a: (f64, f64), b: (f64, f64)) -> bool {
 
 impl Model {
     pub fn new(receiver: (f64, f64), max_range: f64) -> Self {
-        Self { receiver, max_range, recs: BTreeMap::new(), expired: Default::default(), now_ns: 0, stats: ModelStats::default() }
+        Self { receiver, max_range, recs: BTreeMap::new(), expired: Default::default(), now_ns: 0, stats: ModelStats::default(), receiver_on: None }
     }
 
     pub fn tracked(&self) -> Vec<u32> {
@@ -192,7 +197,8 @@ impl Model {
                     Payload::Velocity(None) | Payload::Other => {}
                     Payload::Position { cpr, alt } => {
                         let o = obs.get(addr);
-                        Self::position_step(rec, *cpr, *alt, receiver, max_range, o, *addr, &mut out, &mut self.stats);
+                        let on = self.receiver_on == Some(*addr);
+                        Self::position_step(rec, *cpr, *alt, receiver, max_range, o, *addr, &mut out, &mut self.stats, on);
                     }
                 }
             }
@@ -241,6 +247,7 @@ impl Model {
         addr: u32,
         out: &mut Vec<Disagreement>,
         stats: &mut ModelStats,
+        receiver_on_this: bool,
     ) {
         let duplicate = if c.odd { rec.odd == Some((c, alt)) } else { rec.even == Some((c, alt)) };
         if c.odd {
@@ -254,7 +261,9 @@ impl Model {
             return; // nothing to pair yet; stored report only
         };
         // Candidates: the pairing in either order of recency (DESIGN §3).
-        let cands: Vec<Decode> = vec![cpr::decode_global(e, o), cpr::decode_global(o, e)];
+        // When the odd report is the more recent one the pairing in that order is the only right
+        // one (and it is what an implementation that always pairs (even, odd) computes).
+        let cands: Vec<Decode> = if rec.odd_latest { vec![cpr::decode_global(e, o)] } else { vec![cpr::decode_global(e, o), cpr::decode_global(o, e)] };
         let obs_pos = obs.and_then(|r| r.position);
         let obs_cleared = obs.map_or(false, |r| r.position.is_none() && r.even.is_none() && r.odd.is_none());
 
@@ -270,9 +279,13 @@ impl Model {
             match d {
                 Decode::Pos { ambiguous: true, .. } => Dec::Ambiguous,
                 Decode::Pos { lat, lon, .. } => {
-                    let dist = cpr::haversine_km(receiver, (*lat, *lon));
-                    // a distance of exactly 0 (receiver on the position) is within every range and
-                    // carries no rounding: no ambiguity band around a range of 0
+                    let mut dist = cpr::haversine_km(receiver, (*lat, *lon));
+                    // the receiver was put bit-exactly on the published position and the pair
+                    // decodes to that position again: the distance is exactly 0, within every
+                    // range >= 0, and carries no rounding (no ambiguity band around a range of 0)
+                    if receiver_on_this && rec.position.map_or(false, |prev| pos_close(prev, (*lat, *lon))) && max_range >= 0.0 {
+                        dist = 0.0;
+                    }
                     if dist != 0.0 && close(dist, max_range, BAND) {
                         return Dec::Ambiguous;
                     }
@@ -387,7 +400,7 @@ impl Model {
                     clause,
                     detail: format!(
                         "addr {addr:06x}: even={:?} odd={:?} prev={:?} expected {:?} (or {:?}); observed position {:?} cleared={obs_cleared}",
-                        e, o, rec.position, decs[0], decs[1], obs_pos
+                        e, o, rec.position, decs[0], decs.get(1), obs_pos
                     ),
                 });
                 // resynchronise the model with the implementation so one defect is reported once
